@@ -271,6 +271,19 @@ pub fn run<C: NatCtx>(v: &mut Env<C>) {
     for u in [0u64, 1, 2, 255, 256, u64::MAX] {
         v.case("xfromu64", vec![nu(u)], || Out::Ok(Val::Nat(C::x_val(&ctx.exp_from_u64(u)))));
     }
+    // hash_to_exp on message lengths across the SHA-512 padding boundaries (111/112, 127/128, 239/240)
+    if (v.small && v.p == big(23)) || v.p.bits() == 130 {
+        let lens: Vec<usize> = if v.h.tier == Tier::Quick { vec![0, 1, 55, 56, 63, 64, 110, 111, 112, 113, 127, 128, 129, 238, 239, 240, 241, 255, 256, 299] } else { (0..300).collect() };
+        for len in lens {
+            let bs = v.h.rng.bytes(len);
+            let bs2 = bs.clone();
+            let out = v.case("h2x", vec![b(&bs)], || Out::Ok(Val::Nat(C::x_val(&ctx.hash_to_exp(&bs2)))));
+            let digest = strand::util::hash(&bs);
+            let want = (if C::kind() == 'B' { BigUint::from_bytes_le(&digest) } else { BigUint::from_bytes_be(&digest) }) % &q;
+            let tok = v.tok.clone();
+            v.h.check(out == Out::Ok(n(&want)), || format!("hash_to_exp of a {}-byte message is not the whole SHA-512 digest reduced mod q on {}", len, tok));
+        }
+    }
     for i in 0..4 {
         let bs = v.h.rng.bytes(i * 37);
         let bs2 = bs.clone();
